@@ -357,6 +357,19 @@ func genC28Scenario(r *Rng, local uint64) []c28Op {
 			{Kind: "connect", Peer: a, Flag: true},
 			{Kind: "poll"},
 		}
+	case 3, 7: // request interval for an unknown connected peer whose sends fail
+		return []c28Op{
+			{Kind: "connect", Peer: a, Flag: true},
+			{Kind: "sendfail", Peer: a, Flag: true},
+			{Kind: "poll"},
+			{Kind: "advance", D: PickI(r, []int64{1, 5, 299})},
+			{Kind: "poll"},
+			{Kind: "poll"},
+			{Kind: "sendfail", Peer: a, Flag: r.Chance(50)},
+			{Kind: "advance", D: PickI(r, []int64{1, 300, 301, 600})},
+			{Kind: "poll"},
+			{Kind: "poll", Flag: r.Chance(30)},
+		}
 	case 2, 6: // version ladder from one peer, with a restart
 		vs := []uint64{local, local - 1, local + 1, local, 0, local + 1}
 		ops := []c28Op{}
